@@ -22,6 +22,7 @@ structure DPeer where
   cap : Nat
   errored : Bool
   scan : Option OSt
+  gotExt : Bool := false   -- an extended handshake has been received
 
 structure DState where
   active : Bool
@@ -46,16 +47,55 @@ def numPieces (st : Store) : Nat := if st.ps = 0 then 0 else (st.length + st.ps 
 
 def U32 (n : Nat) : Bool := n < 4294967296
 
-def parseRemote (ws : List String) : Option Msg :=
+def hexLower (s : String) : Bool :=
+  s.toList.all (fun c => ('0' ≤ c && c ≤ '9') || ('a' ≤ c && c ≤ 'f'))
+
+/-- the remote messages of the stream; `np` = number of pieces (well-formedness of the
+    "state diversity" messages, which the upload path must ignore) -/
+def parseRemote (np : Nat) (ws : List String) : Option Msg :=
   match ws with
   | ["Interested"] => some .interested
   | ["NotInterested"] => some .notInterested
+  | ["KeepAlive"] => some .keepAlive
+  | ["Choke"] => some .choke
+  | ["Unchoke"] => some .unchoke
+  | ["HaveAll"] => some .haveAll
+  | ["HaveNone"] => some .haveNone
+  | ["Have", i] => do
+    let i ← i.toNat?
+    if i < np && U32 i then pure (.have i) else none
+  | ["AllowedFast", i] => do
+    let i ← i.toNat?
+    if i < np && U32 i then pure (.allowedFast i) else none
+  | ["Suggest", i] => do
+    let i ← i.toNat?
+    if i < np && U32 i then pure (.suggest i) else none
+  | ["Bitfield", h] =>
+    if h == "-" || !hexLower h then none else do
+      let b ← ofHex h
+      if b.length != (np + 7) / 8 then none
+      else if np % 8 != 0 && (b.getLast?.getD 0).toNat % (2 ^ (8 - np % 8)) != 0 then none
+      else pure (.bitfield b)
+  | ["Ext0", reqq, ms, uo, enc, port, mset] => do
+    let reqq ← reqq.toNat?; let ms ← ms.toNat?; let uo ← uo.toNat?; let enc ← enc.toNat?
+    let port ← port.toNat?; let mset ← mset.toNat?
+    if U32 reqq && U32 ms && uo ≤ 1 && enc ≤ 1 && port ≤ 65535 && mset ≤ 3 then
+      pure (.ext0 { version := [], port := port, reqq := reqq, ipv4 := none, ipv6 := none,
+                    metadataSize := ms, messages := [], uploadOnly := uo != 0, encrypt := enc != 0 })
+    else none
   | ["Request", i, b, l] => do
     let i ← i.toNat?; let b ← b.toNat?; let l ← l.toNat?
     if U32 i && U32 b && U32 l then pure (.request i b l) else none
   | ["Cancel", i, b, l] => do
     let i ← i.toNat?; let b ← b.toNat?; let l ← l.toNat?
     if U32 i && U32 b && U32 l then pure (.cancel i b l) else none
+  | _ => none
+
+/-- handler errors of the diversity messages (they end the peer; the upload state is
+    untouched): a second extended handshake, Fast-extension messages from a non-Fast peer -/
+def otherErr (p : Peer) (dp : DPeer) : Msg → Option String
+  | .ext0 _ => if dp.gotExt then some "dupext" else none
+  | .haveAll | .haveNone | .allowedFast _ | .suggest _ => if p.canFast then none else some "nofast"
   | _ => none
 
 def wenv (cap free : Nat) (dead : Bool) : WEnv :=
@@ -75,6 +115,9 @@ def peerOp (d : DState) (k free : Nat) (dead : Bool) (isExit : Bool) (recvd : Op
   | some p, some dp =>
     if !p.live then (d, "dead")
     else if dp.errored && !isExit then (d, "errored")
+    else if !p.hasInfo && (match recvd with
+        | some (.have _) | some (.bitfield _) | some .haveAll | some .haveNone => true
+        | _ => false) then (d, "bad-op")   -- availability before the metadata: not this stream
     else
       let dead' := dead || p.dead
       let s0 : State := { d.s with peers := d.s.peers.set k { p with dead := dead' } }
@@ -82,20 +125,30 @@ def peerOp (d : DState) (k free : Nat) (dead : Bool) (isExit : Bool) (recvd : Op
       let (s1, o) := step s0 op
       let evs : List Ev := (match recvd with | some m => [Ev.recv m] | none => []) ++ o.msgs.map Ev.sent
       let sc := scanMany dp.scan evs
-      let dp' : DPeer := { dp with errored := dp.errored || o.err ≠ .none || o.panic, scan := sc }
+      let ferr : Option String := match recvd with
+        | some m => otherErr p dp m
+        | none => none
+      let isExt := match recvd with | some (.ext0 _) => true | _ => false
+      let dp' : DPeer := { dp with errored := dp.errored || o.err ≠ .none || o.panic || ferr.isSome,
+                                   scan := sc, gotExt := dp.gotExt || isExt }
       let d' : DState := { d with s := s1, dps := d.dps.set k dp' }
       let a : String :=
         match op, p.requested with
         | .tick _ _ _ _, r :: _ =>
           if r.l ≥ 65536 then (if o.alloc ≥ 100000 then "big" else "small") else "-"
         | _, _ => "-"
-      let res := if o.panic then "panic" else errTok o.err
+      let res := match ferr with
+        | some e => e
+        | none => if o.panic then "panic" else errTok o.err
+      let tag := match ferr with
+        | some e => o.tag ++ "!" ++ e
+        | none => o.tag
       let (told, pend) := match sc with
         | some x => (boolStr x.told, toString x.pending.length)
         | none => ("VIOLATED", "?")
       match s1.peers[k]? with
       | some q =>
-        (d', s!"{o.tag} r={res} m=[{";".intercalate (o.msgs.map canon)}] a={a} | u={boolStr q.amUnchoking} i={boolStr q.interested} h={boolStr q.hasInfo} t={boolStr q.ticking} q={q.requested.length}:{(qhash q.requested).toNat} n={s1.num} | told={told} pend={pend}")
+        (d', s!"{tag} r={res} m=[{";".intercalate (o.msgs.map canon)}] a={a} | u={boolStr q.amUnchoking} i={boolStr q.interested} h={boolStr q.hasInfo} t={boolStr q.ticking} q={q.requested.length}:{(qhash q.requested).toNat} n={s1.num} | told={told} pend={pend}")
       | none => (d', "internal")
   | _, _ => (d, "nopeer")
 
@@ -133,10 +186,15 @@ def step (d : DState) (ws : List String) : DState × String :=
   | _ =>
     if !d.active then (d, "bad-op") else
     match ws with
-    | ["peer", fast, info, cap] =>
+    | "peer" :: fast :: info :: cap :: bits =>
+      -- optional 4th argument: reserved bits of the handshake (1 = Extended, 2 = DHT)
+      let bitsOk := match bits with
+        | [] => true
+        | [x] => (match x.toNat? with | some n => n ≤ 3 | none => false)
+        | _ => false
       match bit fast, bit info, cap.toNat? with
       | some f, some i, some c =>
-        if (c == 0 || c == 64) && d.s.peers.length < 8 then
+        if bitsOk && (c == 0 || c == 64) && d.s.peers.length < 8 then
           let (s1, _) := Upload.step d.s (.newPeer f i)
           ({ d with s := s1, dps := d.dps ++ [{ cap := c, errored := false, scan := some OSt.init }] },
            s!"peer {d.s.peers.length}")
@@ -160,7 +218,7 @@ def step (d : DState) (ws : List String) : DState × String :=
         else (d, "bad-op")
       | none => (d, "bad-op")
     | "msg" :: k :: free :: dead :: rest =>
-      match k.toNat?, free.toNat?, bit dead, parseRemote rest with
+      match k.toNat?, free.toNat?, bit dead, parseRemote (numPieces d.s.store) rest with
       | some k, some free, some dead, some m =>
         if free ≤ 1000 then peerOp d k free dead false (some m) (fun w => .recv k m w) else (d, "bad-op")
       | _, _, _, _ => (d, "bad-op")
